@@ -13,6 +13,7 @@ fn table() -> Vec<(&'static str, &'static str, RunFn, ReplayFn)> {
         ("C03", "exploration", props::c03::run, props::c03::replay),
         ("C04", "exploration", props::c04::run, props::c04::replay),
         ("C05", "exploration", props::c05::run, props::c05::replay),
+        ("C06", "exploration", props::c06::run, props::c06::replay),
         ("C07", "exploration", props::c07::run, props::c07::replay),
         ("C08", "exploration", props::c08::run, props::c08::replay),
         ("C09", "exploration", props::c09::run, props::c09::replay),
